@@ -1,7 +1,11 @@
 //! C06 — resolvers receive exactly the spec-coerced argument values.
 //!
 //! Case:   (case STREAM TABLE DOC VARS)
-//!   STREAM  static | dynamic        which schema executes the request
+//!   STREAM  static | dynamic | static-fast | dynamic-fast
+//!           which schema executes the request, and its validation mode: plain = the default
+//!           `ValidationMode::Strict`, `-fast` = `ValidationMode::Fast` (ArgumentsOfCorrectType,
+//!           DefaultValuesOfCorrectType, ProvidedNonNullArguments … are not run: the executor's
+//!           own `InputType::parse` is the only guard)
 //!   TABLE   the argument type table (Rust-side types of every argument and input field, with
 //!           defaults), cross-checked against the SDL of the real schemas at start-up
 //!   DOC     (doc ((op query none (vardefs…) () (fields…))) ())   — Core/Types.lean wire format
@@ -17,7 +21,7 @@ use std::sync::{Arc, Mutex};
 
 use async_graphql::{
     Context, EmptyMutation, EmptySubscription, Enum, ID, InputObject, InputType, MaybeUndefined, Object,
-    OneofObject, Schema, Value as AValue, dynamic,
+    OneofObject, Schema, ValidationMode, Value as AValue, dynamic,
 };
 use async_graphql_parser::{parse_schema, types as pt};
 
@@ -354,6 +358,15 @@ fn table() -> Table {
             fields: vec![a("a", "opt Int", None), a("s", "opt String", None), a("inn", "opt Inner", None), a("l", "opt vec Int", None)],
         },
     ));
+    // a oneof object below a struct, beside nullable siblings (a variable without runtime value
+    // in `tag`/`n` makes ArgumentsOfCorrectType skip the whole argument)
+    types.push((
+        "Tagged".into(),
+        NDef::Input {
+            oneof: false,
+            fields: vec![a("pick", "Pick", None), a("tag", "opt String", None), a("picks", "opt vec Pick", None), a("n", "mu Int", None)],
+        },
+    ));
     let f = |name: &str, args: Vec<ArgT>| FieldT { name: name.into(), args };
     let fields = vec![
         f("fInt", vec![a("x", "Int", None)]),
@@ -382,6 +395,7 @@ fn table() -> Table {
         f("fPickOpt", vec![a("p", "opt Pick", None)]),
         f("fPickList", vec![a("ps", "vec Pick", None)]),
         f("fThree", vec![a("x", "Int", Some(V::Int(1))), a("y", "opt String", None), a("z", "mu Boolean", None)]),
+        f("fTagged", vec![a("o", "Tagged", None)]),
     ];
     Table { types, fields }
 }
@@ -489,6 +503,19 @@ impl Echo for Pick {
     }
 }
 
+#[derive(InputObject)]
+struct Tagged {
+    pick: Pick,
+    tag: Option<String>,
+    picks: Option<Vec<Pick>>,
+    n: MaybeUndefined<i32>,
+}
+impl Echo for Tagged {
+    fn echo(&self) -> Sexp {
+        obj_echo(vec![("pick", self.pick.echo()), ("tag", self.tag.echo()), ("picks", self.picks.echo()), ("n", self.n.echo())])
+    }
+}
+
 fn rec(ctx: &Context<'_>, args: Vec<(&str, Sexp)>) -> Option<bool> {
     let key = ctx.field().alias().unwrap_or(ctx.field().name()).to_string();
     let log = ctx.data_unchecked::<Log>();
@@ -584,11 +611,15 @@ impl Query {
     ) -> Option<bool> {
         rec(ctx, vec![("x", x.echo()), ("y", y.echo()), ("z", z.echo())])
     }
+    async fn f_tagged(&self, ctx: &Context<'_>, o: Tagged) -> Option<bool> {
+        rec(ctx, vec![("o", o.echo())])
+    }
 }
 
 type StaticSchema = Schema<Query, EmptyMutation, EmptySubscription>;
-fn build_static() -> StaticSchema {
-    Schema::build(Query, EmptyMutation, EmptySubscription).finish()
+fn build_static(fast: bool) -> StaticSchema {
+    let b = Schema::build(Query, EmptyMutation, EmptySubscription);
+    if fast { b.validation_mode(ValidationMode::Fast).finish() } else { b.finish() }
 }
 
 // ------------------------------------------------------------------ the dynamic schema (same SDL, built from the table)
@@ -604,7 +635,7 @@ fn dyn_tref(t: &TR) -> dynamic::TypeRef {
     go(t)
 }
 
-fn build_dynamic(t: &Table) -> dynamic::Schema {
+fn build_dynamic(t: &Table, fast: bool) -> dynamic::Schema {
     let mut q = dynamic::Object::new("Query");
     for f in &t.fields {
         let arg_names: Vec<String> = f.args.iter().map(|x| x.name.clone()).collect();
@@ -637,6 +668,9 @@ fn build_dynamic(t: &Table) -> dynamic::Schema {
         q = q.field(fd);
     }
     let mut sb = dynamic::Schema::build("Query", None, None).register(q);
+    if fast {
+        sb = sb.validation_mode(ValidationMode::Fast);
+    }
     for (n, d) in &t.types {
         match d {
             NDef::Scalar => {}
@@ -743,6 +777,10 @@ struct G<'a> {
     vardefs: Vec<VarN>,
     vars: Vec<(String, V)>,
     badvars: bool,
+    /// put variables WITHOUT runtime value (nullable, no default, not supplied) at nullable
+    /// positions of the literal being generated
+    want_hole: bool,
+    holes: usize,
 }
 
 const INTS: [i64; 9] = [0, 1, -1, 7, 42, -300, 2147483647, -2147483648, 65536];
@@ -811,8 +849,193 @@ impl<'a> G<'a> {
         V::Var(name)
     }
 
+    /// a variable without runtime value: nullable type, no default, not supplied.  Inside an
+    /// argument literal it makes ArgumentsOfCorrectType skip the whole argument (`into_const_with`
+    /// fails), so whatever else the literal holds is checked by the executor's `parse` only.
+    fn hole_var(&mut self, loc: &TR) -> V {
+        let name = format!("v{}", self.vardefs.len());
+        let ty = self.strengthen_inner(loc.nullable());
+        self.dist.hit("var_hole");
+        self.dist.hit("var_without_default");
+        self.dist.hit("var_omitted");
+        self.vardefs.push(VarN { name: name.clone(), ty, default: None });
+        self.holes += 1;
+        V::Var(name)
+    }
+
+    /// a value that is NOT a value of the leaf type `n` (scalar or enum); no list unless `lists`
+    fn bad_leaf(&mut self, n: &str, m: Mode, lists: bool) -> V {
+        let s = |x: &str| V::Str(x.into());
+        let e = |x: &str| V::Enum(x.into());
+        let f = |x: &str| V::Float(x.into());
+        let mut c: Vec<V> = match n {
+            "Int" => vec![s("7"), V::Bool(true), f("1.5"), f("3.0"), V::Int(2147483648), V::Int(-2147483649), V::Int(4294967296), e("RED")],
+            "Float" => vec![s("1.5"), V::Bool(false), e("RED")],
+            "String" => vec![V::Int(5), V::Bool(true), e("RED"), f("1.5")],
+            "Boolean" => vec![V::Int(1), s("true"), e("YES")],
+            "ID" => vec![V::Bool(true), f("1.5"), e("RED")],
+            // an enum: unknown names, other kinds (a string NAMING a value is accepted by the library
+            // also in a document literal, where the specification wants an enum token: not generated)
+            _ => vec![e("PURPLE"), e("red"), s("PURPLE"), V::Int(0), V::Bool(true), f("1.5")],
+        };
+        if m == Mode::Json {
+            c.retain(|v| !matches!(v, V::Enum(_)));
+        }
+        c.push(V::Obj(vec![]));
+        c.push(V::Obj(vec![("a".into(), V::Int(1))]));
+        if lists {
+            c.push(V::List(vec![V::Obj(vec![])]));
+        }
+        self.rng.pick(&c).clone()
+    }
+
+    /// A value that is NOT a value of type `t`, type-directed and malformed in (at least) one
+    /// place at any depth — the rest around it is well-formed and may hold variables (`m`):
+    /// oneof objects with 0, 2, 3 members, a null member, an unknown member; input objects with
+    /// an unknown key, a missing required field, a non-object; wrong leaf kinds, unknown enum
+    /// values, out-of-range integers; lists with a wrong element, an object where a list of
+    /// scalars is expected; null at non-null positions.  `lists` = a list value may be produced
+    /// (false below a list type taken as its single item: `[]` would be a valid list there).
+    fn bad(&mut self, t: &TR, m: Mode, depth: usize, lists: bool) -> V {
+        if t.is_nn() && self.rng.chance(1, 8) {
+            self.dist.hit("bad_null_at_non_null");
+            return V::Null;
+        }
+        match t.nullable() {
+            TR::NonNull(_) => unreachable!(),
+            TR::List(i) => {
+                let base_is_input = self.t.is_input(i.base());
+                let roll = self.rng.below(10);
+                if roll < 5 && lists {
+                    self.dist.hit("bad_list_element");
+                    let n = self.rng.below(3);
+                    let mut xs: Vec<V> = (0..n).map(|_| self.pos(i, false, m, depth + 1)).collect();
+                    let b = self.bad(i, m, depth + 1, true);
+                    let at = self.rng.below(xs.len() + 1);
+                    xs.insert(at, b);
+                    V::List(xs)
+                } else if roll < 8 || base_is_input {
+                    self.dist.hit("bad_single_for_list");
+                    self.bad(i, m, depth + 1, false)
+                } else {
+                    self.dist.hit("bad_object_for_list");
+                    V::Obj(vec![("a".into(), V::Int(1))])
+                }
+            }
+            TR::Named(n) => match self.t.find(n).clone() {
+                NDef::Scalar | NDef::Enum(_) => {
+                    self.dist.hit("bad_leaf");
+                    self.bad_leaf(n, m, lists)
+                }
+                NDef::Input { oneof: true, fields } => {
+                    let member = |g: &mut Self, f: &ArgT| -> (String, V) {
+                        let nn = TR::NonNull(Box::new(f.ty.gql().nullable().clone()));
+                        (f.name.clone(), g.pos(&nn, false, m, depth + 1))
+                    };
+                    let mut fs = fields.clone();
+                    self.rng.shuffle(&mut fs);
+                    match self.rng.below(9) {
+                        0 => {
+                            self.dist.hit("bad_oneof_0_members");
+                            V::Obj(vec![])
+                        }
+                        1 | 2 => {
+                            self.dist.hit("bad_oneof_2_members");
+                            V::Obj(vec![member(self, &fs[0]), member(self, &fs[1])])
+                        }
+                        3 => {
+                            self.dist.hit("bad_oneof_3_members");
+                            V::Obj(vec![member(self, &fs[0]), member(self, &fs[1]), member(self, &fs[2])])
+                        }
+                        4 => {
+                            self.dist.hit("bad_oneof_null_member");
+                            V::Obj(vec![(fs[0].name.clone(), V::Null)])
+                        }
+                        5 => {
+                            self.dist.hit("bad_oneof_unknown_member");
+                            V::Obj(vec![("zz".into(), V::Int(1))])
+                        }
+                        6 => {
+                            self.dist.hit("bad_oneof_known_and_unknown_member");
+                            let mut o = vec![member(self, &fs[0]), ("zz".into(), V::Int(1))];
+                            if self.rng.chance(1, 2) {
+                                o.reverse();
+                            }
+                            V::Obj(o)
+                        }
+                        7 => {
+                            self.dist.hit("bad_oneof_member_value");
+                            let nn = TR::NonNull(Box::new(fs[0].ty.gql().nullable().clone()));
+                            V::Obj(vec![(fs[0].name.clone(), self.bad(&nn, m, depth + 1, true))])
+                        }
+                        _ => {
+                            self.dist.hit("bad_non_object_for_oneof");
+                            let mut c = vec![V::Int(3), V::Str("a".into()), V::Bool(true)];
+                            if lists {
+                                c.push(V::List(vec![V::Int(1)]));
+                            }
+                            self.rng.pick(&c).clone()
+                        }
+                    }
+                }
+                NDef::Input { oneof: false, fields } => {
+                    // a well-formed object first (all required fields, some optional ones) …
+                    let victim = self.rng.below(fields.len());
+                    let kind = self.rng.below(10);
+                    if kind == 9 {
+                        self.dist.hit("bad_non_object_for_input_object");
+                        let mut c = vec![V::Int(3), V::Str("a".into()), V::Bool(true), V::Float("1.5".into())];
+                        if m != Mode::Json {
+                            c.push(V::Enum("RED".into()));
+                        }
+                        if lists {
+                            c.push(V::List(vec![V::Int(1)]));
+                        }
+                        return self.rng.pick(&c).clone();
+                    }
+                    let required: Vec<usize> =
+                        (0..fields.len()).filter(|k| fields[*k].ty.gql().is_nn() && fields[*k].default.is_none()).collect();
+                    let dropped = if (4..6).contains(&kind) && !required.is_empty() { Some(*self.rng.pick(&required)) } else { None };
+                    let mut out = vec![];
+                    for (k, f) in fields.iter().enumerate() {
+                        let ft = f.ty.gql();
+                        if dropped == Some(k) {
+                            continue;
+                        }
+                        if kind >= 6 && k == victim {
+                            // … one of whose fields holds a malformed value
+                            out.push((f.name.clone(), self.bad(&ft, m, depth + 1, true)));
+                            continue;
+                        }
+                        let optional = !ft.is_nn() || f.default.is_some();
+                        if optional && (depth > 2 || self.rng.chance(if self.want_hole { 1 } else { 2 }, 5)) {
+                            continue;
+                        }
+                        out.push((f.name.clone(), self.pos(&ft, f.default.is_some(), m, depth + 1)));
+                    }
+                    if kind < 4 {
+                        // … with an undeclared key
+                        self.dist.hit("bad_unknown_key");
+                        let k = self.rng.pick(&["zz", "zzz", "A", "Inner"]).to_string();
+                        let v = self.rng.pick(&[V::Int(1), V::Null, V::Str("x".into()), V::Obj(vec![]), V::List(vec![])]).clone();
+                        let at = self.rng.below(out.len() + 1);
+                        out.insert(at, (k, v));
+                    } else if dropped.is_some() {
+                        self.dist.hit("bad_missing_required_field");
+                    } else {
+                        self.dist.hit("bad_field_value");
+                    }
+                    V::Obj(out)
+                }
+            },
+        }
+    }
+
     /// a JSON value that is NOT a value of the declared variable type
     fn bad_json(&mut self, t: &TR) -> V {
+        if self.rng.chance(1, 2) {
+            return self.bad(t, Mode::Json, 0, true);
+        }
         match t {
             TR::NonNull(i) => {
                 if self.rng.chance(1, 2) {
@@ -860,6 +1083,9 @@ impl<'a> G<'a> {
 
     /// position-aware: may put a variable here
     fn pos(&mut self, t: &TR, has_default: bool, m: Mode, depth: usize) -> V {
+        if m == Mode::Lit(true) && self.want_hole && (!t.is_nn() || has_default) && self.vardefs.len() < 6 && self.rng.chance(1, 2) {
+            return self.hole_var(t);
+        }
         if m == Mode::Lit(true) && self.vardefs.len() < 4 && self.rng.chance(1, 4) {
             self.dist.hit("nested_variable");
             return self.new_var(t, has_default);
@@ -933,8 +1159,16 @@ impl<'a> G<'a> {
 
 fn gen_case(rng: &mut Rng, _i: usize, o: &Opts, dist: &mut Dist) -> Sexp {
     let t = table();
-    let stream = if o.stream.starts_with("dynamic") { "dynamic" } else { "static" };
-    let mut g = G { rng, t: &t, dist, vardefs: vec![], vars: vec![], badvars: o.stream.ends_with("badvars") };
+    // the validation mode is a dimension of the case: Strict (default) or Fast
+    let fast = rng.chance(2, 5);
+    let stream = match (o.stream.starts_with("dynamic"), fast) {
+        (false, false) => "static",
+        (false, true) => "static-fast",
+        (true, false) => "dynamic",
+        (true, true) => "dynamic-fast",
+    };
+    dist.hit(if fast { "mode_fast" } else { "mode_strict" });
+    let mut g = G { rng, t: &t, dist, vardefs: vec![], vars: vec![], badvars: o.stream.ends_with("badvars"), want_hole: false, holes: 0 };
     let nf = 1 + g.rng.below(3);
     let mut sels = vec![];
     for k in 0..nf {
@@ -945,9 +1179,39 @@ fn gen_case(rng: &mut Rng, _i: usize, o: &Opts, dist: &mut Dist) -> Sexp {
             let loc = x.ty.gql();
             let optional = !loc.is_nn() || x.default.is_some();
             let roll = g.rng.below(100);
+            // malformed literals, which only the executor's own `InputType::parse` can refuse: in
+            // Fast mode anywhere; in Strict mode beside a variable without runtime value (the
+            // rule ArgumentsOfCorrectType skips such an argument) — and sometimes without one,
+            // where strict validation must refuse the request
+            let malform = roll >= 18 && g.rng.chance(if fast { 7 } else { 5 }, 20);
             let v = if optional && roll < 18 {
                 g.dist.hit("arg_omitted");
                 continue;
+            } else if malform {
+                let want_hole = if fast { g.rng.chance(1, 4) } else { g.rng.chance(5, 6) };
+                let mut tries = 0;
+                loop {
+                    let (nd, nv, snap) = (g.vardefs.len(), g.vars.len(), g.dist.0.clone());
+                    g.want_hole = want_hole;
+                    g.holes = 0;
+                    let vars_inside = want_hole || g.rng.chance(1, 2);
+                    let v = g.bad(&loc, Mode::Lit(vars_inside), 0, true);
+                    g.want_hole = false;
+                    tries += 1;
+                    if want_hole && g.holes == 0 && tries < 8 {
+                        g.vardefs.truncate(nd);
+                        g.vars.truncate(nv);
+                        g.dist.0 = snap;
+                        continue;
+                    }
+                    g.dist.hit(match (fast, g.holes > 0) {
+                        (true, true) => "arg_malformed_fast_beside_hole",
+                        (true, false) => "arg_malformed_fast",
+                        (false, true) => "arg_malformed_strict_beside_hole",
+                        (false, false) => "arg_malformed_strict",
+                    });
+                    break v;
+                }
             } else if g.badvars && roll >= 45 && g.t.is_input(loc.base()) && g.rng.chance(1, 4) {
                 // an INVALID document: a non-object literal where an input object is expected
                 g.dist.hit("arg_literal_non_object_at_input_object");
@@ -1061,8 +1325,10 @@ fn tr_from_sexp(s: &Sexp) -> TR {
 }
 
 thread_local! {
-    static STATIC: StaticSchema = build_static();
-    static DYNAMIC: dynamic::Schema = build_dynamic(&table());
+    static STATIC: StaticSchema = build_static(false);
+    static DYNAMIC: dynamic::Schema = build_dynamic(&table(), false);
+    static STATIC_FAST: StaticSchema = build_static(true);
+    static DYNAMIC_FAST: dynamic::Schema = build_dynamic(&table(), true);
     static TABLE_LINE: String = table().to_sexp().to_string();
 }
 
@@ -1086,6 +1352,8 @@ fn run(case: &Sexp, dist: &mut Dist) -> Sexp {
     let resp = match a[0].as_atom().unwrap() {
         "static" => STATIC.with(|s| spin_on(s.execute(req))),
         "dynamic" => DYNAMIC.with(|s| spin_on(s.execute(req))),
+        "static-fast" => STATIC_FAST.with(|s| spin_on(s.execute(req))),
+        "dynamic-fast" => DYNAMIC_FAST.with(|s| spin_on(s.execute(req))),
         x => panic!("stream {x}"),
     };
     if std::env::var("AGV_DEBUG").is_ok() {
@@ -1126,7 +1394,9 @@ fn run(case: &Sexp, dist: &mut Dist) -> Sexp {
 
 fn main() {
     let t = table();
-    cross_check(&t, &build_static().sdl(), "static schema");
-    cross_check(&t, &build_dynamic(&t).sdl(), "dynamic schema");
+    cross_check(&t, &build_static(false).sdl(), "static schema");
+    cross_check(&t, &build_dynamic(&t, false).sdl(), "dynamic schema");
+    cross_check(&t, &build_static(true).sdl(), "static schema (fast)");
+    cross_check(&t, &build_dynamic(&t, true).sdl(), "dynamic schema (fast)");
     main_loop(&mut gen_case, &mut run);
 }
